@@ -1252,9 +1252,17 @@ impl Server {
             None
         };
         
+        // Commands whose outcome is chosen by the server (a random member, a generated ID)
+        // are logged after they ran, in a form that replays to the same outcome
+        let log_after_execution = matches!(command_name.as_str(), "SPOP" | "XADD");
+        
+        // SCRIPT LOAD defines what a later EVALSHA means, so it belongs in the log too
+        let is_script_load = command_name == "SCRIPT" && matches!(parts.get(1),
+            Some(RespFrame::BulkString(Some(sub))) if sub.eq_ignore_ascii_case(b"LOAD"));
+        
         // Log to AOF for write commands
         if let Some(aof) = &self.aof_engine {
-            if self.is_write_command(&command_name) {
+            if (self.is_write_command(&command_name) && !log_after_execution) || is_script_load {
                 if let Err(e) = aof.append_command_in_db(db, parts) {
                     eprintln!("Failed to append to AOF: {}", e);
                 }
@@ -1545,6 +1553,16 @@ impl Server {
             _ => Ok(RespFrame::error(format!("ERR unknown command '{}'", command_name))),
         };
         
+        if log_after_execution {
+            if let (Some(aof), Ok(response)) = (&self.aof_engine, &result) {
+                if let Some(rewritten) = Self::deterministic_form(&command_name, parts, response) {
+                    if let Err(e) = aof.append_command_in_db(db, &rewritten) {
+                        eprintln!("Failed to append to AOF: {}", e);
+                    }
+                }
+            }
+        }
+        
         // Auto-save change recording - always enabled (independent of monitoring)
         if self.is_write_command(&command_name) {
             if let Ok(resp) = &result {
@@ -1636,6 +1654,30 @@ impl Server {
                 // No password set on server
                 Ok(RespFrame::error("ERR Client sent AUTH, but no password is set"))
             }
+        }
+    }
+    
+    /// The command that reproduces what SPOP / XADD just did: SPOP becomes SREM of the
+    /// members it returned, XADD * becomes XADD with the ID it generated. None if the
+    /// command had no effect.
+    fn deterministic_form(command_name: &str, parts: &[RespFrame], response: &RespFrame) -> Option<Vec<RespFrame>> {
+        match (command_name, response) {
+            ("SPOP", RespFrame::BulkString(Some(member))) => Some(vec![
+                RespFrame::from_string("SREM"),
+                parts.get(1)?.clone(),
+                RespFrame::BulkString(Some(member.clone())),
+            ]),
+            ("SPOP", RespFrame::Array(Some(members))) if !members.is_empty() => {
+                let mut rewritten = vec![RespFrame::from_string("SREM"), parts.get(1)?.clone()];
+                rewritten.extend(members.iter().cloned());
+                Some(rewritten)
+            }
+            ("XADD", RespFrame::BulkString(Some(id))) => {
+                let mut rewritten = parts.to_vec();
+                *rewritten.get_mut(2)? = RespFrame::BulkString(Some(id.clone()));
+                Some(rewritten)
+            }
+            _ => None,
         }
     }
     
